@@ -1554,7 +1554,13 @@ type nfs41LockOwnerFileState struct {
 	// Fields that are protected by nfs41ProgramState.clientsLock if
 	// clientIncarnationState.holdCount == 0, and
 	// clientIncarnationState.lock otherwise.
-	lockCount int
+	//
+	// The lock count is the number of byte-range lock entries the
+	// lock-owner holds in the opened file. Because those entries are
+	// keyed by lock-owner only, the count is shared between all
+	// lock-owner files of the same lock-owner that refer to the same
+	// opened file through different open-owners.
+	lockCount *int
 	stateID   nfs41RegularStateID
 }
 
@@ -1563,11 +1569,11 @@ type nfs41LockOwnerFileState struct {
 // is normally performed when closing the file or forcefully removing
 // the client incarnation due to inactivity.
 func (lofs *nfs41LockOwnerFileState) unlockAndRemove(cis *clientIncarnationState, ll *leavesToClose) {
-	if lofs.lockCount > 0 {
+	if *lofs.lockCount > 0 {
 		// Lock-owner still has one or more locks held on this
 		// file. Issue an unlock operation that spans the full
 		// range of the file to release all locks at once.
-		lofs.lockCount += lofs.openOwnerFile.openedFile.UnlockAll(&lofs.lockOwner.owner)
+		*lofs.lockCount += lofs.openOwnerFile.openedFile.UnlockAll(&lofs.lockOwner.owner)
 	}
 	lofs.remove(cis, ll)
 }
@@ -1575,7 +1581,7 @@ func (lofs *nfs41LockOwnerFileState) unlockAndRemove(cis *clientIncarnationState
 // remove the lock-owner file, under the assumption that it currently
 // doesn't hold any locks in the file. This is used by FREE_STATEID.
 func (lofs *nfs41LockOwnerFileState) remove(cis *clientIncarnationState, ll *leavesToClose) {
-	if lofs.lockCount != 0 {
+	if *lofs.lockCount != 0 {
 		panic("Lock-owner file still holds one or more locks")
 	}
 
@@ -2112,10 +2118,18 @@ func (s *sequenceState) opLock(args *nfsv4.Lock4args) nfsv4.Lock4res {
 	}
 
 	if lofs == nil {
+		lockCount := new(int)
+		for _, other := range cis.lockOwnerFilesByOther {
+			if other.lockOwner == los && other.openOwnerFile.openedFile == oofs.openedFile {
+				lockCount = other.lockCount
+				break
+			}
+		}
 		lofs = &nfs41LockOwnerFileState{
 			lockOwner:     los,
 			openOwnerFile: oofs,
 			shareAccess:   oofs.shareCount.clone(oofs.shareAccess),
+			lockCount:     lockCount,
 			stateID:       cis.newRegularStateID(),
 		}
 		oofs.lockOwnerFiles[los] = lofs
@@ -2123,8 +2137,8 @@ func (s *sequenceState) opLock(args *nfsv4.Lock4args) nfsv4.Lock4res {
 		cis.lockOwnerFilesByOther[lofs.stateID.other] = lofs
 	}
 
-	lofs.lockCount += lockCountDelta
-	if lofs.lockCount < 0 {
+	*lofs.lockCount += lockCountDelta
+	if *lofs.lockCount < 0 {
 		panic("Negative lock count")
 	}
 	lofs.stateID.incrementSeqID()
@@ -2177,8 +2191,8 @@ func (s *sequenceState) opLockU(args *nfsv4.Locku4args) nfsv4.Locku4res {
 	if st != nfsv4.NFS4_OK {
 		return &nfsv4.Locku4res_default{Status: st}
 	}
-	lofs.lockCount += lockCountDelta
-	if lofs.lockCount < 0 {
+	*lofs.lockCount += lockCountDelta
+	if *lofs.lockCount < 0 {
 		panic("Negative lock count")
 	}
 	lofs.stateID.incrementSeqID()
